@@ -128,6 +128,12 @@ func leavesOf(t types.Type) []Leaf {
 			}
 		case *types.TypeParam:
 			out = []Leaf{{".tag", BV(32), t, "tag"}, {".val", I64, t, "val"}}
+		case *types.Basic:
+			if u.Kind() == types.Invalid {
+				out = []Leaf{}
+				break
+			}
+			panic("leavesOf: unsupported basic type " + k)
 		default:
 			panic("leavesOf: unsupported type " + k)
 		}
